@@ -15,7 +15,8 @@ RULE = ('dependency graphs: every cycle length 1-6 x entry on the cycle or via '
         'a tail of 1-5, cycles closed through a range member, through a '
         'defined name (xlsx) and across sheets; acyclic decoys (=A1+A1, '
         '=A1*A1+A1, diamonds depth 1-6, a cell reached along 2-8 paths, chains '
-        'to depth 100); failure injection (unknown function / Python error) '
+        'to depth 100, chains of depth 150-1200 that exhaust the interpreter '
+        'stack); failure injection (unknown function / Python error) '
         'at every depth of chains of length 5-60; random digraphs on <= 9 '
         'cells.  distinct non-trivial = distinct (shape, length, entry, '
         'closing construct, outcome class)')
@@ -27,7 +28,8 @@ ASSUMPTIONS = [
     'reference reachability/cycle analysis in vlib/ref.py',
 ]
 FLOORS = {'cyclic_cases': 100, 'acyclic_cases': 100, 'failure_cases': 100,
-          'budget_armed': 200, 'evaluate_entries_seen': 1000}
+          'budget_armed': 200, 'evaluate_entries_seen': 1000,
+          'deep_chain_cases': 6}
 ANCHOR_FUNCS = {
     'xlcalculator/evaluator.py': ['Evaluator.evaluate',
                                   'EvaluatorContext.eval_cell'],
@@ -306,6 +308,58 @@ def run(ctx):
         judge_acyclic(desc, ('decoy', desc), wb, model, start, len(cells))
         judge_acyclic(desc + ' (same evaluator again)', ('decoy2', desc), wb,
                       model, start, len(cells), ev=C.last_evaluator)
+
+    # ---- chains deeper than the interpreter's call stack allows ----------------
+    # Whatever such an evaluation ends in (the value, or a failure because the
+    # interpreter's stack is exhausted), the graph is acyclic: the report must
+    # not speak of a cycle, and its text stays polynomial in the depth.
+    for depth in (150, 300, 600, 1200) + ((2500,) if thorough else ()):
+        for style in ('plus', 'range', 'if'):
+            if not mine():
+                continue
+            cells = {(S, 1, depth + 1): 1}
+            for k in range(1, depth + 1):
+                nxt = R(1, k + 1)
+                if style == 'plus':
+                    f = plus(nxt, ONE)
+                elif style == 'range':
+                    f = ('call', 'SUM', [('rng', None, 1, k + 1, 1, k + 1,
+                                          (False,) * 4), ONE])
+                else:
+                    f = ('call', 'IF', [('lit', True, 'TRUE'),
+                                        plus(nxt, ONE), ('lit', 0, '0')])
+                cells[(S, 1, k)] = ('f', f)
+            desc = f'chain of depth {depth} linked by {style}'
+            try:
+                wb, model = C.build(cells, {}, 'dict')
+            except RecursionError:
+                ctx.event('deep_chain_not_buildable')
+                continue
+            got, entries, nesting, msg_len, budget = C.evaluate(
+                model, (S, 1, 1), len(cells))
+            cls = classify_outcome(got)
+            ctx.event('deep_chain_cases')
+            ctx.case(('deep-chain', depth, style, cls))
+            want = ('value', ('num', float(depth + 1)))
+            bad = []
+            if cls == 'cycle-report':
+                bad.append(f'a cycle is reported: {str(got)[:200]}')
+            elif cls == 'value' and got != want:
+                bad.append(f'value {got}, reference {want}')
+            elif cls == 'abort':
+                bad.append(f'step budget exceeded: {got}')
+            if msg_len > 400 * (depth + 2) ** 2:
+                bad.append(f'failure text of {msg_len} characters')
+            if ctx.want_sample():
+                ctx.sample({'graph': desc, 'outcome': cls,
+                            'evaluate_entries': entries,
+                            'message_chars': msg_len})
+            if bad:
+                ctx.fail(f'acyclic {desc}: ' + '; '.join(bad),
+                         {'graph': desc, 'outcome': str(got)[:400],
+                          'entries': entries, 'message_chars': msg_len},
+                         monitor='acyclic-never-flagged',
+                         group=f'deep:{style}:{cls}')
 
     # ---- failure injection at every depth --------------------------------------
     # link styles: how one cell of the chain reaches the next one
